@@ -2,13 +2,13 @@
 """seedkeep.py <ID> <k> <demo-dest> <demo-cmd> <caught: signatures or 'MISSED'> : store a verified seeded change under /verif/seeded/<ID>-<k>/"""
 import sys, os, shutil, json, re
 ID,k,dest,cmd,caught=sys.argv[1:6]
-src='/tmp/seed-out/%s/%s'%(ID,k)
-dst='/verif/seeded/%s-%s'%(ID,k)
+src=os.path.join(os.environ.get('SEEDSRC','/tmp/seed-out'),ID,k)
+dst='/verif/seeded/%s-%s'%(ID,os.environ.get('KEEPAS',k))
 os.makedirs(dst,exist_ok=True)
 for f in os.listdir(src):
     shutil.copy(os.path.join(src,f),os.path.join(dst,f))
 notes=open(os.path.join(src,'notes.md')).read() if os.path.exists(os.path.join(src,'notes.md')) else ''
-meta={"property":ID,"seed":int(k),
+meta={"property":ID,"seed":int(os.environ.get("KEEPAS",k)),
  "breaks":"see notes.md (written by the independent sub-agent that planted the change)",
  "needs_to_manifest": (re.search(r'(?is)(needs?[^\n]*\n(?:.*?\n){0,6})',notes) or [None,''])[1].strip()[:900],
  "demonstration":{"copy_into":dest,"command":cmd,"verified":"fails with the change, passes without (run by seedrun.sh in scratch copies of /repo); go build, go build -tags verif and the pinned suite pass with the change"},
